@@ -60,7 +60,9 @@ def float_spelling(rng, v):
 
 
 INT_VALUES = [0, 1, 2, 3, 7, 8, 10, 31, 32, 63, 64, 100, 255, 256, 1000, 65535, 65536, 2 ** 31 - 1, 2 ** 31, 2 ** 32 - 1, 2 ** 32,
-              2 ** 53, 2 ** 53 + 1, 2 ** 62, 2 ** 63 - 1, 46341, 3037000500]
+              2 ** 53, 2 ** 53 + 1, 2 ** 62, 2 ** 63 - 1, 46341, 3037000500,
+              # literals no 64-bit integer can hold: they denote 2^63.. and must never come out as a wrapped value
+              2 ** 63, 2 ** 63 + 1, 2 ** 64 - 1, 2 ** 64, 2 ** 64 + 5, 2 ** 63 + 2 ** 40]
 FLT_VALUES = [0.0, 0.5, 1.0, 1.5, 2.0, 2.25, 3.75, 10.0, 0.1, 0.125, 100.0, 1e3, 1e-3, 1e10, 123456.789, 2.5e-7, 1e100, 4294967296.0]
 STR_VALUES = ["", "a", "b", "ab", "A", "z", "é", "日本", "\U0001F600", "�", "\U00010000", "a\U00010000", " ", "x y", "<&>", "\"q\"",
               "tab\there", "nl\nhere", "\\", "%1", "\x41", "\x7f", " "]
@@ -123,7 +125,7 @@ def leaf(rng, t):
 def ev(e):
     k = e[0]
     if k == "lit":
-        return e[2]
+        return chk(e[2]) if e[1] == "int" else e[2]
     t = e[1]
     if k == "neg":
         v = ev(e[2])
